@@ -6,6 +6,7 @@ quantifiers are skolemised, so `unsat` of  hyps' /\\ not goal  implies the oblig
 artefact of missing instances: it is a *candidate* refutation that the caller must confirm (replay) before it
 is reported as a violation.
 """
+import itertools
 import subprocess
 import tempfile
 import time
@@ -188,6 +189,8 @@ def instantiate(qf, univ, goal, rounds=2, extra_terms=(), budget=60000):
     terms = {}
     total = 0
     sums_done = set()
+    triggers = {}
+    all_ground = []
     new_exprs = ground + [goal] + list(extra_terms)
     for rnd in range(rounds + 1):
         t_new = index_terms(new_exprs, bound, seen_terms)
@@ -205,16 +208,46 @@ def instantiate(qf, univ, goal, rounds=2, extra_terms=(), budget=60000):
             ground += fresh_exprs
             break
         tl = list(terms.values())
+        all_ground.extend(new_exprs)
+        usage = term_usage(all_ground, bound)
         for ui, (vars_, body) in enumerate(univ):
-            combos = [()]
-            if len(vars_) == 1:
-                combos = [(t,) for t in tl]
-            elif len(vars_) == 2:
-                combos = [(a, b) for a in tl for b in tl] if len(tl) ** 2 <= MAX_INST_PER_HYP else _matched_pairs(vars_, body, tl)
-            elif len(vars_) == 3:
-                combos = [(a, b, c) for a in tl for b in tl for c in tl] if len(tl) ** 3 <= MAX_INST_PER_HYP else []
-            else:
+            if ui not in triggers:
+                triggers[ui] = (_find_trigger(vars_, body) if len(vars_) >= 2 else None, var_patterns(vars_, body))
+            trg, pats = triggers[ui]
+            if trg is not None:
+                # an application that binds every bound variable: match each such trigger against the ground applications
                 combos = []
+                for tg in trg:
+                    pos = [[k for k, a in enumerate(tg.children()) if a.get_id() == v.get_id()][0] for v in vars_]
+                    for app in usage['apps'].get(tg.decl().name(), []):
+                        combos.append(tuple(app.arg(p) for p in pos))
+            else:
+                per_var = []
+                for v in vars_:
+                    cands = {}
+                    ps = pats.get(v.get_id())
+                    if not ps:
+                        cands = dict(terms)
+                    else:
+                        for kind, key, argpos in ps:
+                            if kind == 'sel':
+                                src = usage['sel'].get(key)
+                                if src is None and key is None:
+                                    src = terms
+                                for t in (src or {}).values():
+                                    cands[t.get_id()] = t
+                            else:
+                                for app in usage['apps'].get(key, []):
+                                    t = app.arg(argpos)
+                                    cands[t.get_id()] = t
+                    per_var.append(list(cands.values()))
+                n = 1
+                for c in per_var:
+                    n *= max(1, len(c))
+                if n > MAX_INST_PER_HYP:
+                    combos = [tuple([t] * len(vars_)) for t in per_var[0]] if len(set(map(len, per_var))) == 1 else []
+                else:
+                    combos = list(itertools.product(*per_var))
             for combo in combos:
                 key = (ui,) + tuple(t.get_id() for t in combo)
                 if key in done:
@@ -235,8 +268,105 @@ def instantiate(qf, univ, goal, rounds=2, extra_terms=(), budget=60000):
     return ground
 
 
-def _matched_pairs(vars_, body, tl):
-    return [(a, a) for a in tl]
+def _find_trigger(vars_, body):
+    """an application of an uninterpreted function that has every bound variable as a direct argument"""
+    ids = [v.get_id() for v in vars_]
+    found = []
+
+    def visit(x):
+        if not z3.is_app(x) or x.decl().kind() != z3.Z3_OP_UNINTERPRETED or x.num_args() == 0:
+            return
+        argids = [a.get_id() for a in x.children()]
+        if all(i in argids for i in ids):
+            found.append(x)
+    seen = set()
+    for e in _atoms_of(body):
+        _walk(e, seen, visit)
+    return found or None
+
+
+def _atoms_of(tree):
+    k = tree[0]
+    if k == 'atom':
+        return [tree[1]]
+    if k in ('and', 'or'):
+        out = []
+        for x in tree[1]:
+            out += _atoms_of(x)
+        return out
+    if k == 'implies':
+        return _atoms_of(tree[1]) + _atoms_of(tree[2])
+    if k == 'not':
+        return _atoms_of(tree[1])
+    return []
+
+
+
+def _base_array(a):
+    while z3.is_app(a) and a.decl().kind() == z3.Z3_OP_STORE:
+        a = a.arg(0)
+    return a
+
+
+def term_usage(exprs, bound_ids):
+    """ground index terms per base array, ground applications per uninterpreted function"""
+    sel, apps = {}, {}
+    seen = set()
+
+    def visit(x):
+        if not z3.is_app(x):
+            return
+        kd = x.decl().kind()
+        if kd in (z3.Z3_OP_SELECT, z3.Z3_OP_STORE):
+            idx = x.arg(1)
+            if idx.sort() == I and not _mentions(idx, bound_ids):
+                b = _base_array(x.arg(0))
+                key = b.get_id() if z3.is_const(b) else None
+                sel.setdefault(key, {})[idx.get_id()] = idx
+                if key is not None:
+                    sel.setdefault(None, {})[idx.get_id()] = idx
+        elif kd == z3.Z3_OP_UNINTERPRETED and x.num_args() > 0 and not _mentions(x, bound_ids):
+            apps.setdefault(x.decl().name(), []).append(x)
+    for e in exprs:
+        _walk(e, seen, visit)
+    return {'sel': sel, 'apps': apps}
+
+
+def var_patterns(vars_, body):
+    """for each bound variable: where it occurs *directly* as an array index or function argument"""
+    ids = {v.get_id() for v in vars_}
+    pats = {}
+    seen = set()
+
+    def visit(x):
+        if not z3.is_app(x):
+            return
+        kd = x.decl().kind()
+        if kd == z3.Z3_OP_SELECT:
+            idx = x.arg(1)
+            if idx.get_id() in ids:
+                b = _base_array(x.arg(0))
+                key = b.get_id() if (z3.is_const(b) and b.get_id() not in ids) else None
+                pats.setdefault(idx.get_id(), []).append(('sel', key, 1))
+        elif kd == z3.Z3_OP_UNINTERPRETED and x.num_args() > 0:
+            for k, a in enumerate(x.children()):
+                if a.get_id() in ids:
+                    pats.setdefault(a.get_id(), []).append(('app', x.decl().name(), k))
+    for e in _atoms_of(body):
+        _walk(e, seen, visit)
+    return pats
+
+
+def ground_apps(exprs, decl_name, bound_ids, seen):
+    out = []
+
+    def visit(x):
+        if z3.is_app(x) and x.decl().kind() == z3.Z3_OP_UNINTERPRETED and x.decl().name() == decl_name \
+                and not _mentions(x, bound_ids):
+            out.append(x)
+    for e in exprs:
+        _walk(e, seen, visit)
+    return out
 
 
 # ------------------------------------------------------------------------------------------------
@@ -306,7 +436,8 @@ def _check(assertions, timeout_ms):
     if r == z3.unsat:
         return dict(status='proved', backend='z3-api')
     if r == z3.sat:
-        return dict(status='refuted', backend='z3-api', model=model_dict(s.model()))
+        m = s.model()
+        return dict(status='refuted', backend='z3-api', model=model_dict(m), z3model=m)
     text = s.to_smt2()
     for name, cmd in (('z3-4.8.12', ['/usr/bin/z3', '-T:%d' % max(1, timeout_ms // 1000)]),
                       ('cvc5', ['/usr/bin/cvc5', '--tlimit=%d' % timeout_ms])):
